@@ -118,6 +118,21 @@ def decodeOfsRaw : Bytes → Except Err Nat
       let v := decodeOfsAux (b.toNat % (Gen.Pack.doLowMask + 1)) r
       if v = Gen.Pack.doZero then .error .delta else .ok v
 
+/-- `take_msb_bytes` followed by `_decode_object_header`: `(type, size, unconsumed bytes)`. -/
+def decodeObjHeader (buf : Bytes) : Option (Nat × Nat × Bytes) :=
+  match takeMsb buf with
+  | none => none
+  | some (raw, rest) =>
+    match decodeObjHeaderRaw raw with
+    | none => none
+    | some (ty, size) => some (ty, size, rest)
+
+/-- `take_msb_bytes` followed by `_decode_delta_base_offset`. -/
+def decodeOfs (buf : Bytes) : Option (Except Err Nat × Bytes) :=
+  match takeMsb buf with
+  | none => none
+  | some (raw, rest) => some (decodeOfsRaw raw, rest)
+
 /-! ## one pack entry (`unpack_object_at` + `read_zlib_chunks_at`) -/
 
 inductive BaseRef where
